@@ -203,6 +203,8 @@ def update_state(elasticTrialStrain, stateOld, dt, props, hardening_model):
     trialMises = 2 * props[PROPS_MU] * np.tensordot(TensorMath.dev(elasticTrialStrain), N)
     # pad the bracket so that it strictly contains the root even when the hardening slope vanishes
     ub = eqpsOld + (trialMises - hardening_model.compute_flow_stress(eqpsOld, eqpsOld, dt) + 10*_TOLERANCE*props[PROPS_Y0])/(3.0*props[PROPS_MU])
+    # ... also when the padding is smaller than the spacing of floats at eqpsOld
+    ub = ub*(1.0 + 8*np.finfo(np.dtype("float64")).eps)
     # Avoid the initial guess eqpsGuess = eqpsOld, because the power law rate sensitivity has an infinte slope
     # in this case.
     eqpsGuess = 0.5*(lb + ub)
